@@ -43,6 +43,32 @@ theorem twoq_ctor (size : Nat) (rr gr : RatioClass) (rs es : Nat) :
   unfold TwoQ.new
   by_cases h1 : size = 0 <;> by_cases h2 : rr.inUnit <;> by_cases h3 : gr.inUnit <;> by_cases h4 : es = 0 <;> simp [h1, h2, h3, h4]
 
+/-- an accepted configuration gives every internal list exactly the requested capacity — for every size, also beyond any
+    power of two one might clamp at (compared with the real lists' capacities by the `innercaps` operation) -/
+theorem rawlru_ctor_caps (cap : Nat) (cb : Bool) (c : RawLru κ ν) (h : RawLru.new cap cb = some c) :
+    c.cap = cap ∧ c.items = [] := by
+  unfold RawLru.new at h
+  split at h
+  · cases h
+  · cases h; exact ⟨rfl, rfl⟩
+
+theorem slru_ctor_caps (p q : Nat) (s : Slru κ ν) (h : Slru.new p q = some s) :
+    s.prob.cap = p ∧ s.prot.cap = q ∧ s.prob.items = [] ∧ s.prot.items = [] := by
+  unfold Slru.new at h
+  split at h
+  · cases h
+  · split at h
+    · cases h
+    · cases h; exact ⟨rfl, rfl, rfl, rfl⟩
+
+theorem arc_ctor_caps (size : Nat) (a : Arc κ ν) (h : Arc.new size = some a) :
+    a.recent.cap = size ∧ a.frequent.cap = size ∧ a.recentEvict.cap = size ∧ a.frequentEvict.cap = size ∧ a.p = 0 := by
+  unfold Arc.new at h
+  split at h
+  · cases h
+  · cases h; exact ⟨rfl, rfl, rfl, rfl, rfl⟩
+
+
 theorem sketch_ctor (ctrs : Nat) (sch : Scheme) : (Sketch.new ctrs sch = none ↔ ctrs = 0) := by
   unfold Sketch.new; split <;> simp_all <;> omega
 
